@@ -201,6 +201,10 @@ def run_case(case):
         ops = base['ops']
         # position: anywhere after the first origin (so that the rejected call has a default origin) or before
         pos = r.randrange(1, len(ops) + 1)
+        if rk in ('duplicate-dataset', 'wrong-ref-class', 'frame-no-channels', 'bad-assign'):
+            # these need earlier objects (a channel / something to refer to / an object to assign to)
+            first_ch = next(i for i, o in enumerate(ops) if o['op'] == 'channel')
+            pos = r.randrange(max(first_ch + 1, len(ops) // 2), len(ops) + 1)
         refs = {}
         for i, o in enumerate(ops[:pos]):
             if o['op'] in schema.TYPES:
